@@ -131,6 +131,8 @@ def main(argv=None):
     import importlib
     mod = importlib.import_module("props.%s" % prop)
     cases = mod.cases(a.tier, seed)
+    from vf import state
+    state.process_guard()          # snapshot of the library's global mutable state while it is still pristine
     if a.only:
         cases = [c for c in cases if a.only in c.name]
     known_entries = load_known(prop)
